@@ -160,20 +160,38 @@ func feedProj(n *pb.Notification) []trace.E {
 	return out
 }
 
+// offerCtx: goroutine id -> offers per client queue while one feed notification is handed to the
+// server (the offer hook runs on the goroutine of the cache's feed callback).
+var offerCtx sync.Map
+
 func (e *subEnv) onFeed(l *ctree.Leaf) {
-	if n, ok := l.Value().(*pb.Notification); ok {
-		t := n.GetPrefix().GetTarget()
-		e.fmu.Lock()
-		for _, x := range feedProj(n) {
-			x["aux"] = isAuxPath(x["p"].([]string))
-			if x["aux"].(bool) && x["k"] == "upd" {
-				x["val"] = "aux"
-			}
-			e.fed[t] = append(e.fed[t], x)
-		}
-		e.fmu.Unlock()
+	n, ok := l.Value().(*pb.Notification)
+	if !ok {
+		e.srv.Update(l)
+		return
 	}
+	id := goid()
+	counts := map[interface{}]int{}
+	offerCtx.Store(id, counts)
 	e.srv.Update(l)
+	offerCtx.Delete(id)
+	maxoff := 0
+	for _, c := range counts {
+		if c > maxoff {
+			maxoff = c
+		}
+	}
+	t := n.GetPrefix().GetTarget()
+	e.fmu.Lock()
+	for _, x := range feedProj(n) {
+		x["aux"] = isAuxPath(x["p"].([]string))
+		if x["aux"].(bool) && x["k"] == "upd" {
+			x["val"] = "aux"
+		}
+		x["maxoff"] = maxoff // the most often this one notification was offered to any single client
+		e.fed[t] = append(e.fed[t], x)
+	}
+	e.fmu.Unlock()
 }
 
 func (e *subEnv) takeFed(t string) []trace.E {
@@ -776,6 +794,9 @@ func subHook(point string, arg interface{}) {
 			}
 		}
 	case "offer":
+		if m, ok := offerCtx.Load(goid()); ok {
+			m.(map[interface{}]int)[arg]++
+		}
 		if v, ok := queueOwner.Load(arg); ok {
 			r := v.(*subRun)
 			if r.isEnded() {
